@@ -31,6 +31,8 @@ def coq_type(t):
         return "bool"
     if t == "unit":
         return "unit"
+    if t == "dyn":
+        return "dyn"
     if isinstance(t, tuple):
         if t[0] == "list":
             return f"(list {coq_type(t[1])})"
@@ -54,6 +56,8 @@ def coq_default(t):
         return "false"
     if t == "unit":
         return "tt"
+    if t == "dyn":
+        return "DNone"
     if isinstance(t, tuple):
         if t[0] in ("list", "dict"):
             return "[]"
@@ -82,6 +86,8 @@ def eqb_for(t):
         return "String.eqb"
     if t == "bool":
         return "Bool.eqb"
+    if t == "dyn":
+        return "dyn_eqb"
     if isinstance(t, tuple) and t[0] == "opt":
         return f"(opt_eqb {eqb_for(t[1])})"
     if isinstance(t, tuple) and t[0] == "list":
@@ -102,7 +108,7 @@ class Unit:
 
     def __init__(self, name, params, ret="unit", globals_=None, calls=None, drop=(),
                  effects=None, local_types=None, methods=None, oracle_calls=None,
-                 funcs=None, global_state=None, captured=(), drop_stmt=(), static=None):
+                 funcs=None, global_state=None, captured=(), drop_stmt=(), static=None, imports=None, fs_term=None):
         self.name = name
         self.params = list(params)
         self.ret = ret
@@ -118,6 +124,8 @@ class Unit:
         self.captured = list(captured)          # closure variables of a nested def: (name, type)
         self.drop_stmt = tuple(drop_stmt)       # predicates on statements that are dropped
         self.static = dict(static or {})        # source text of a test -> statically known truth
+        self.imports = dict(imports or {})      # module name -> Coq term : option exn (import may fail)
+        self.fs_term = fs_term                  # Coq term : dict string, the file-system oracle
 
 
 DEFAULT_DROP = ("util.debug", "util.info", "mp.util.debug", "mp.util.info",
@@ -149,6 +157,7 @@ class Translator:
         self.vars["_eff"] = ("list", ("ext", "eff", "EReport"))
         self.P = unit.name
         self.hoisted = []   # (name, term): loop bodies emitted as their own definitions
+        self.filehandles = set()
 
     def hoist(self, term):
         name = f"{self.P}_loop{len(self.hoisted) + 1}"
@@ -208,6 +217,13 @@ class Translator:
                 return (f"(ap3 (lift3 (fun a b c => (a, b, c))) {parts[0][0]} {parts[1][0]} {parts[2][0]})",
                         ("tuple", tuple(p[1] for p in parts)))
             raise Refuse("tuple arity", n)
+        if isinstance(n, ast.BoolOp) and isinstance(n.op, ast.Or) and len(n.values) == 2:
+            a, ta = self.expr(n.values[0], defined)
+            if ta == ("opt", "int"):
+                b, tb = self.expr(n.values[1], defined)
+                if tb != "int":
+                    raise Refuse("`opt int or x` needs an int default", n)
+                return f"(ap2 (lift2 opt_int_or) {a} {b})", "int"
         if isinstance(n, ast.BoolOp):
             parts = [self.truth(e, defined) for e in n.values]
             op = "e_and" if isinstance(n.op, ast.And) else "e_or"
@@ -248,6 +264,29 @@ class Translator:
             return '(pure "<fstring>")', "str"
         raise Refuse("expression form", n)
 
+    def inject(self, term, t, node=None):
+        """coerce an expression of type t to dyn"""
+        if t == "dyn":
+            return term
+        if t == "int":
+            return f"(ap1 (lift1 DInt) {term})"
+        if t == "str":
+            return f"(ap1 (lift1 DStr) {term})"
+        if t == ("opt", "?"):
+            return "(pure DNone)"
+        if t == ("opt", "int"):
+            return f"(ap1 (lift1 dyn_of_opt_int) {term})"
+        if t == ("opt", "str"):
+            return f"(ap1 (lift1 dyn_of_opt_str) {term})"
+        raise Refuse(f"cannot inject {t!r} into dyn", node)
+
+    def as_num(self, term, t, node=None):
+        if t == "int":
+            return term
+        if t == "dyn":
+            return f"(ap1 dyn_num {term})"
+        raise Refuse(f"number expected, got {t!r}", node)
+
     def unify(self, a, b, n):
         if a == b:
             return a, b
@@ -263,6 +302,8 @@ class Translator:
         term, t = self.expr(n, defined)
         if t == "bool":
             return term
+        if t == "dyn":
+            return f"(ap1 (lift1 dyn_truth) {term})"
         if t == "int":
             return f"(ap1 (lift1 (fun z => negb (Z.eqb z 0))) {term})"
         if t == "str":
@@ -293,6 +334,9 @@ class Translator:
             if not (isinstance(r, ast.Constant) and r.value is None):
                 raise Refuse("`is` only against None", n)
             l, tl = self.expr(n.left, defined)
+            if tl == "dyn":
+                f = "dyn_is_none" if isinstance(op, ast.Is) else "(fun d => negb (dyn_is_none d))"
+                return f"(ap1 (lift1 {f}) {l})", "bool"
             if not (isinstance(tl, tuple) and tl[0] == "opt"):
                 raise Refuse(f"`is None` on non-optional {tl!r}", n)
             f = "(fun o => match o with None => true | Some _ => false end)"
@@ -311,6 +355,21 @@ class Translator:
             if isinstance(op, ast.NotIn):
                 f = f"(fun k d => negb ({f} k d))"
             return f"(ap2 (lift2 {f}) {l} {rr})", "bool"
+        if tl == "dyn" or tr == "dyn":
+            l, rr = self.inject(l, tl, n), self.inject(rr, tr, n)
+            if isinstance(op, ast.Eq):
+                return f"(ap2 (lift2 dyn_eqb) {l} {rr})", "bool"
+            if isinstance(op, ast.NotEq):
+                return f"(ap2 (lift2 (fun a b => negb (dyn_eqb a b))) {l} {rr})", "bool"
+            if isinstance(op, ast.Lt):
+                return f"(ap2 dyn_ltb {l} {rr})", "bool"
+            if isinstance(op, ast.LtE):
+                return f"(ap2 dyn_leb {l} {rr})", "bool"
+            if isinstance(op, ast.Gt):
+                return f"(ap2 dyn_ltb {rr} {l})", "bool"
+            if isinstance(op, ast.GtE):
+                return f"(ap2 dyn_leb {rr} {l})", "bool"
+            raise Refuse("comparison on dyn", n)
         tl, tr = self.unify(tl, tr, n)
         if isinstance(op, (ast.Eq, ast.NotEq)):
             f = eqb_for(tl)
@@ -327,6 +386,8 @@ class Translator:
     def binop(self, n, defined):
         l, tl = self.expr(n.left, defined)
         r, tr = self.expr(n.right, defined)
+        if {tl, tr} <= {"int", "dyn"} and "dyn" in (tl, tr) and not isinstance(n.op, ast.Div):
+            l, r, tl, tr = self.as_num(l, tl, n), self.as_num(r, tr, n), "int", "int"
         if tl == "int" and tr == "int":
             f = {ast.Add: "Z.add", ast.Sub: "Z.sub", ast.Mult: "Z.mul"}.get(type(n.op))
             if f:
@@ -374,8 +435,12 @@ class Translator:
         d = dotted(n.func)
         if n.keywords and not (d in self.u.calls):
             raise Refuse("keyword arguments", n)
+        if d is None and isinstance(n.func, ast.Attribute) and isinstance(n.func.value, ast.Call):
+            d = None
         if d in self.u.calls:
-            return self.u.calls[d](self, n, defined)
+            r = self.u.calls[d](self, n, defined)
+            if r is not None:
+                return r
         # builtins
         if d == "len" and len(n.args) == 1:
             a, ta = self.expr(n.args[0], defined)
@@ -389,8 +454,16 @@ class Translator:
                 return f"(ap1 py_int_of_str {a})", "int"
             if ta == "int":
                 return a, "int"
+            if ta == "dyn":
+                return f"(ap1 dyn_int {a})", "int"
+        if d == "math.ceil" and len(n.args) == 1 and isinstance(n.args[0], ast.BinOp) \
+                and isinstance(n.args[0].op, ast.Div):
+            a, ta = self.expr(n.args[0].left, defined)
+            b, tb = self.expr(n.args[0].right, defined)
+            return f"(ap2 ceil_div {self.as_num(a, ta, n)} {self.as_num(b, tb, n)})", "int"
         if d in ("min", "max") and len(n.args) >= 2:
             parts = [self.expr(a, defined) for a in n.args]
+            parts = [(self.as_num(t_, ty, n), "int") for t_, ty in parts]
             if any(t != "int" for _, t in parts):
                 raise Refuse("min/max on non-int", n)
             f = "Z.min" if d == "min" else "Z.max"
@@ -410,6 +483,11 @@ class Translator:
             if tr == "str":
                 if m == "strip" and not args:
                     return f"(ap1 (lift1 strip) {recv})", "str"
+                if m == "read" and not args and isinstance(n.func.value, ast.Name) \
+                        and n.func.value.id in self.filehandles:
+                    return recv, "str"
+                if m == "split" and not args:
+                    return f"(ap1 (lift1 split_ws) {recv})", ("list", "str")
                 if m == "decode" and len(args) == 1 and isinstance(n.args[0], ast.Constant) \
                         and n.args[0].value == "ascii":
                     return f"(ap1 decode_ascii {recv})", "str"
@@ -461,8 +539,41 @@ class Translator:
             term = f"(seq {t}\n {term})"
         return term, defined
 
+    def store_for(self, target, val_type, defined, node):
+        """Coq function  value -> L -> L  storing a value of val_type into target"""
+        if isinstance(target, ast.Name):
+            v = target.id
+            if self.vars.get(v) == "dyn" and val_type != "dyn":
+                c = {"int": "DInt", "str": "DStr"}.get(val_type)
+                if c is None:
+                    raise Refuse("store into dyn", node)
+                return f"(fun x l => {self.setter(v)} ({c} x) l)", defined | {v}
+            self.declare(v, val_type, node)
+            return self.setter(v), defined | {v}
+        if isinstance(target, ast.Tuple) and all(isinstance(e, ast.Name) for e in target.elts) \
+                and isinstance(val_type, tuple) and val_type[0] == "tuple" \
+                and len(val_type[1]) == len(target.elts):
+            names = [e.id for e in target.elts]
+            pat = ", ".join(f"x{i}" for i in range(len(names)))
+            body = "l"
+            for i, (v, t) in enumerate(zip(names, val_type[1])):
+                xi = f"x{i}"
+                if self.vars.get(v) == "dyn" and t != "dyn":
+                    c = {"int": "DInt", "str": "DStr"}.get(t)
+                    if c is None:
+                        raise Refuse("store into dyn", node)
+                    xi = f"({c} x{i})"
+                else:
+                    self.declare(v, t, node)
+                body = f"({self.setter(v)} {xi} {body})"
+            return f"(fun '({pat}) l => {body})", defined | set(names)
+        raise Refuse("call result target", node)
+
     def assign_to(self, target, val_term, val_type, defined, node):
         """assignment of an evaluated expression to a target; returns (stm, defined)"""
+        if isinstance(target, ast.Name) and self.vars.get(target.id) == "dyn":
+            return (f"(assign {self.inject(val_term, val_type, node)} {self.setter(target.id)})",
+                    defined | {target.id})
         if isinstance(target, ast.Name):
             v = target.id
             if isinstance(val_type, tuple) and val_type[0] == "opt" and val_type[1] == "?":
@@ -471,17 +582,29 @@ class Translator:
                 val_type = self.vars[v]
             self.declare(v, val_type, node)
             return f"(assign {val_term} {self.setter(v)})", defined | {v}
+        if isinstance(target, ast.Tuple) and len(target.elts) == 2 and isinstance(val_type, tuple) \
+                and val_type[0] == "list" and all(isinstance(e, ast.Name) for e in target.elts):
+            val_term = f"(ap1 unpack2 {val_term})"
+            val_type = ("tuple", (val_type[1], val_type[1]))
         if isinstance(target, ast.Tuple) and all(isinstance(e, ast.Name) for e in target.elts):
             if not (isinstance(val_type, tuple) and val_type[0] == "tuple"
                     and len(val_type[1]) == len(target.elts)):
                 raise Refuse("tuple unpacking arity/type", node)
             names = [e.id for e in target.elts]
+            conv = []
             for v, t in zip(names, val_type[1]):
-                self.declare(v, t, node)
+                if self.vars.get(v) == "dyn" and t != "dyn":
+                    conv.append({"int": "DInt", "str": "DStr"}.get(t))
+                    if conv[-1] is None:
+                        raise Refuse("unpack into dyn", node)
+                else:
+                    conv.append(None)
+                    self.declare(v, t, node)
             pat = ", ".join(f"x{i}" for i in range(len(names)))
             body = "l"
             for i, v in enumerate(names):
-                body = f"({self.setter(v)} x{i} {body})"
+                xi = f"x{i}" if conv[i] is None else f"({conv[i]} x{i})"
+                body = f"({self.setter(v)} {xi} {body})"
             return (f"(assign {val_term} (fun '({pat}) l => {body}))", defined | set(names))
         if isinstance(target, ast.Subscript):
             # d[k] = v   or   d[k1][k2] = v
@@ -537,7 +660,8 @@ class Translator:
                 return None, defined          # docstring
             if isinstance(s.value, ast.Call):
                 d = dotted(s.value.func)
-                if d is not None and any(d == p or d.startswith(p + ".") for p in u.drop + DEFAULT_DROP):
+                if d is not None and d not in u.effects and \
+                        any(d == p or d.startswith(p + ".") for p in u.drop + DEFAULT_DROP):
                     return None, defined
                 if d in u.effects:
                     tag = u.effects[d]
@@ -554,6 +678,21 @@ class Translator:
                     if b in u.oracle_calls:
                         return u.oracle_calls[b](self, s.value, defined), defined
             raise Refuse("expression statement", s)
+        if isinstance(s, ast.Import):
+            terms = []
+            for al in s.names:
+                if al.name not in u.imports:
+                    raise Refuse(f"import {al.name}", s)
+                terms.append(f"(oracle_raise {u.imports[al.name]})")
+            t = terms[-1]
+            for x in reversed(terms[:-1]):
+                t = f"(seq {x} {t})"
+            return t, defined
+        if isinstance(s, ast.Assign) and len(s.targets) == 1 and isinstance(s.value, ast.Call) \
+                and dotted(s.value.func) in u.funcs:
+            callee = u.funcs[dotted(s.value.func)]
+            store, d2 = self.store_for(s.targets[0], callee.ret, defined, s)
+            return self.call_unit(callee, s.value, defined, store=store), d2
         if isinstance(s, ast.Assign):
             if len(s.targets) != 1:
                 raise Refuse("multiple assignment targets", s)
@@ -605,8 +744,10 @@ class Translator:
                     raise Refuse("bare return in valued function", s)
                 return "(ret (pure tt))", defined
             v, tv = self.expr(s.value, defined)
-            if isinstance(tv, tuple) and tv[0] == "opt" and tv[1] == "?":
+            if isinstance(tv, tuple) and tv[0] == "opt" and tv[1] == "?" and self.u.ret != "dyn":
                 tv = self.u.ret
+            if self.u.ret == "dyn" and tv != "dyn":
+                v, tv = self.inject(v, tv, s), "dyn"
             if tv != self.u.ret:
                 raise Refuse(f"return type {tv!r} != {self.u.ret!r}", s)
             return f"(ret {v})", defined
@@ -660,10 +801,21 @@ class Translator:
         dafter = dbody
         for h in s.handlers:
             classes, catch_all = self.handler_classes(h)
-            if h.name is not None and self.uses_name(h.body, h.name):
-                raise Refuse("exception object used in handler", h)
-            hb, dh = self.block(h.body, defined)
             cl = "[" + "; ".join(classes) + "]"
+            if h.name is not None and self.uses_name(h.body, h.name):
+                # the exception object may only be stored: `var = e`
+                for x in ast.walk(ast.Module(body=h.body, type_ignores=[])):
+                    if isinstance(x, ast.Name) and x.id == h.name:
+                        ok = any(isinstance(st, ast.Assign) and st.value is x for st in ast.walk(ast.Module(body=h.body, type_ignores=[])))
+                        if not ok and not self.in_dropped(h.body, x):
+                            raise Refuse("exception object used other than `var = e`", h)
+                self.declare(h.name, "dyn", h)
+                hb, dh = self.block(h.body, defined | {h.name})
+                bind = f"(fun x l => {self.setter(h.name)} (DExn x) l)"
+                term = f"(try_except_as {term} {cl} {'true' if catch_all else 'false'} {bind}\n {hb})"
+                dafter = dafter & dh if not self.terminates(h.body) else dafter
+                continue
+            hb, dh = self.block(h.body, defined)
             term = f"(try_except {term} {cl} {'true' if catch_all else 'false'}\n {hb})"
             dafter = dafter & dh if not self.terminates(h.body) else dafter
         if s.finalbody:
@@ -671,6 +823,17 @@ class Translator:
             term = f"(try_finally {term}\n {fb})"
             dafter = dafter | (dfin - defined) if True else dafter
         return term, dafter
+
+    def in_dropped(self, stmts, node):
+        dropped = self.u.drop + DEFAULT_DROP
+        for st in ast.walk(ast.Module(body=stmts, type_ignores=[])):
+            if isinstance(st, ast.Expr) and isinstance(st.value, ast.Call):
+                d = dotted(st.value.func)
+                if d is not None and d not in self.u.effects and \
+                        any(d == p or d.startswith(p + ".") for p in dropped):
+                    if any(x is node for x in ast.walk(st)):
+                        return True
+        return False
 
     def uses_name(self, stmts, name):
         dropped = self.u.drop + DEFAULT_DROP
@@ -697,7 +860,7 @@ class Translator:
                 # every exception of the enum derives from Exception
                 catch_all = True
             elif d in ("KeyError", "ValueError", "RuntimeError", "IndexError", "TypeError", "OSError",
-                       "FileNotFoundError", "NotImplementedError", "ZeroDivisionError"):
+                       "FileNotFoundError", "NotImplementedError", "ZeroDivisionError", "ImportError"):
                 out.append(d)
             elif d == "AttributeError":
                 out.append("OtherError")
@@ -779,10 +942,50 @@ class Translator:
                 self.declare(f, ("ext", "linestream", "[]"), s)
                 inner, d2 = self.block(s.body, defined | {f})
                 return f"(seq (assign (rd {self.fld(src)}) {self.setter(f)})\n {inner})", d2
+            if (self.u.fs_term is not None and isinstance(it.context_expr, ast.Call)
+                    and dotted(it.context_expr.func) == "open" and len(it.context_expr.args) == 1
+                    and not it.context_expr.keywords and isinstance(it.optional_vars, ast.Name)):
+                nm, tn = self.expr(it.context_expr.args[0], defined)
+                if tn != "str":
+                    raise Refuse("open() of a non-str", s)
+                fh = it.optional_vars.id
+                self.declare(fh, "str", s)
+                self.filehandles.add(fh)
+                inner, d2 = self.block(s.body, defined | {fh})
+                return (f"(seq (assign (ap2 fs_read (pure {self.u.fs_term}) {nm}) {self.setter(fh)})\n {inner})", d2)
         raise Refuse("with statement", s)
 
-    def call_unit(self, callee, call, defined):
+    def call_unit(self, callee, call, defined, store=None):
         """statement-level call of another generated unit; threads the effect log"""
+        if store is not None:
+            if len(call.args) != len(callee.params) or call.keywords:
+                raise Refuse("callee arity", call)
+            args = []
+            cap_args = [ast.Name(id=cn, ctx=ast.Load()) for cn, _ in callee.captured]
+            for g, gt in callee.global_state.items():
+                if self.u.global_state.get(g) != gt:
+                    raise Refuse(f"caller must declare global {g}", call)
+            for a, (pn, pt) in zip(list(call.args) + cap_args, callee.params + callee.captured):
+                t, ty = self.expr(a, defined)
+                if ty != pt:
+                    raise Refuse(f"callee arg type {ty!r} != {pt!r}", call)
+                args.append(t)
+            if callee.global_state:
+                gl = list(callee.global_state)
+                cP = callee.name
+                run = (f"{cP}_run " + " ".join(f"a{i}" for i in range(len(args))) + " "
+                       + " ".join(f"({self.fld(g)} l)" for g in gl) + f" ({self.fld('_eff')} l)")
+                back = "l"
+                for g in gl:
+                    back = f"({self.setter(g)} ({cP}_v_{g.lstrip('_')} l2) {back})"
+                back = f"({self.setter('_eff')} ({cP}_v_eff l2) {back})"
+                inner = (f"match {run} with (Ret v, l2) => (Norm, {store} v {back}) "
+                         f"| (Raise x, l2) => (Raise x, {back}) | (_, l2) => (Norm, {back}) end")
+            else:
+                inner = (f"call_ret {self.fld('_eff')} {self.setter('_eff')} ({callee.name} "
+                         + " ".join(f"a{i}" for i in range(len(args))) + f") {store} (fun l => l) l")
+            return ("(fun l => " + "".join(f"match {a} l with Err e => (Raise e, l) | Ok a{i} => "
+                                            for i, a in enumerate(args)) + inner + " end" * len(args) + ")")
         if len(call.args) != len(callee.params) or call.keywords:
             raise Refuse("callee arity", call)
         args = []
